@@ -122,9 +122,10 @@ def tlc(module, cfg, name, workers=4, extra=None, env=None, timeout=1800, simula
         # anything that is not an invariant violation is a tool / spec error
         errs = [l for l in out.splitlines() if l.startswith("Error:")]
         res["error"] = "; ".join(errs[:3])
-    res["cases"] = [json.loads(json.loads('"' + c + '"')) for c in re.findall(r'<<"CASE", "(.*)">>', out)]
-    res["fails"] = [(int(a), b, c) for a, b, c in re.findall(r'<<"FAIL", (\d+), "(\w+)", "(\w+)">>', out)]
-    res["unmatched"] = re.findall(r'<<"UNMATCHED", (\d+)', out)
+    # TLC's pretty printer breaks tuples that do not fit in 80 columns over several lines (<< "FAIL",\n   12, ...)
+    res["cases"] = [json.loads(json.loads('"' + c + '"')) for c in re.findall(r'<<\s*"CASE",\s*"(.*)"\s*>>', out)]
+    res["fails"] = [(int(a), b, c) for a, b, c in re.findall(r'<<\s*"FAIL",\s*(\d+),\s*"(\w+)",\s*"(\w+)"\s*>>', out)]
+    res["unmatched"] = re.findall(r'<<\s*"UNMATCHED",\s*(\d+)', out)
     res["info"] = re.findall(r'<<"INFO", (.*)>>', out)
     return res
 
